@@ -47,8 +47,31 @@ pub enum Op {
 }
 
 const VALUE: usize = 42;
+const THREADS_DESC: [&str; 3] = ["single-threaded process", "a second thread is alive; deliveries on the main thread", "deliveries on a second thread; the main thread is alive"];
 
-fn child(order_shutdown_first: bool, sig: i32, status: i32, hist: &[Op], moved: bool, e: &mut Emit) {
+/// `threads`: 0 = single-threaded; 1 = a second thread is alive while the main thread gets the signals;
+/// 2 = the signals are delivered to (and the history is run by) a second thread while the main thread
+/// is alive. A process that outlives the fatal delivery is ended by the idle thread with status 98 / 99.
+fn child(order_shutdown_first: bool, sig: i32, status: i32, hist: &[Op], moved: bool, threads: u8, e: &mut Emit) {
+    match threads {
+        1 => {
+            std::thread::spawn(|| {
+                std::thread::sleep(Duration::from_secs(4));
+                unsafe { libc::_exit(99) }
+            });
+            std::thread::sleep(Duration::from_millis(20));
+            child_body(order_shutdown_first, sig, status, hist, moved, e)
+        }
+        2 => std::thread::scope(|sc| {
+            sc.spawn(|| child_body(order_shutdown_first, sig, status, hist, moved, e));
+            std::thread::sleep(Duration::from_secs(4));
+            unsafe { libc::_exit(98) }
+        }),
+        _ => child_body(order_shutdown_first, sig, status, hist, moved, e),
+    }
+}
+
+fn child_body(order_shutdown_first: bool, sig: i32, status: i32, hist: &[Op], moved: bool, e: &mut Emit) {
     PIPE_FD.store(e.fd(), Ordering::SeqCst);
     unsafe {
         libc::atexit(at_exit_hook);
@@ -80,7 +103,7 @@ fn child(order_shutdown_first: bool, sig: i32, status: i32, hist: &[Op], moved: 
         match op {
             Op::Deliver => {
                 unsafe {
-                    libc::raise(sig);
+                    libc::raise(sig); // thread-directed: the calling thread runs the handler
                 }
                 e.line(&format!("after-deliver {} flag={} uflag={}", k, flag().load(Ordering::SeqCst) as u8, uflag.load(Ordering::SeqCst)));
             }
@@ -176,7 +199,7 @@ pub fn run(tier: Tier) -> BResult {
         hists = next;
     }
     // cells: (order, sig, status, history)
-    let mut cells: Vec<(bool, i32, i32, Vec<Op>, bool)> = Vec::new();
+    let mut cells: Vec<(bool, i32, i32, Vec<Op>, bool, u8)> = Vec::new();
     let term = signal_hook::consts::TERM_SIGNALS;
     for &order in &[true, false] {
         for (si, &sig) in term.iter().enumerate() {
@@ -188,18 +211,28 @@ pub fn run(tier: Tier) -> BResult {
                 if si > 0 && h.len() < depth {
                     continue;
                 }
-                cells.push((order, sig, 17 + si as i32, h.clone(), false));
+                cells.push((order, sig, 17 + si as i32, h.clone(), false, 0));
                 if si == 0 {
-                    cells.push((order, sig, 17, h.clone(), true));
+                    cells.push((order, sig, 17, h.clone(), true, 0));
                 }
             }
         }
     }
     let statuses: Vec<i32> = if tier == Tier::Quick { vec![0, 1, 42, 255] } else { (0..=255).collect() };
     for &st in &statuses {
-        cells.push((true, libc::SIGTERM, st, vec![Op::Deliver, Op::Deliver], false));
-        cells.push((false, libc::SIGTERM, st, vec![Op::Deliver], false));
-        cells.push((true, libc::SIGINT, st, vec![Op::Deliver, Op::False, Op::Deliver, Op::Deliver], st % 2 == 1));
+        cells.push((true, libc::SIGTERM, st, vec![Op::Deliver, Op::Deliver], false, 0));
+        cells.push((false, libc::SIGTERM, st, vec![Op::Deliver], false, 0));
+        cells.push((true, libc::SIGINT, st, vec![Op::Deliver, Op::False, Op::Deliver, Op::Deliver], st % 2 == 1, 0));
+    }
+    // processes with a second live thread: the fatal delivery on the main thread / on the other thread
+    for &sig in term.iter() {
+        for threads in [1u8, 2] {
+            for st in [0, 1, 77, 255] {
+                cells.push((true, sig, st, vec![Op::Deliver, Op::Deliver], false, threads));
+                cells.push((false, sig, st, vec![Op::Deliver], false, threads));
+                cells.push((true, sig, st, vec![Op::Deliver, Op::False, Op::Deliver], false, threads));
+            }
+        }
     }
     // conditional default: histories of length <= 3 x termination signals x {no race, racing handler installation}
     let mut dcells: Vec<(i32, Vec<Op>, bool)> = Vec::new();
@@ -215,8 +248,8 @@ pub fn run(tier: Tier) -> BResult {
     let nmain = cells.len();
     let probes = run_cells(cells.len() + dcells.len(), 16, Duration::from_secs(30), move |i, e| {
         if i < nmain {
-            let (o, s, st, h, mv) = &cells2[i];
-            child(*o, *s, *st, h, *mv, e);
+            let (o, s, st, h, mv, th) = &cells2[i];
+            child(*o, *s, *st, h, *mv, *th, e);
         } else {
             let (s, h, race) = &dcells2[i - nmain];
             child_default(*s, h, *race, e);
@@ -272,10 +305,10 @@ pub fn run(tier: Tier) -> BResult {
         }
     }
     for (i, p) in probes.iter().enumerate().take(nmain) {
-        let (order, sig, status, h, moved) = &cells[i];
+        let (order, sig, status, h, moved, threads) = &cells[i];
         transitions += h.len() as u64;
         let fatal = model(*order, h);
-        let case = json!({"registration_order": if *order { "shutdown first, flag second" } else { "flag first, shutdown second" }, "signal": sig, "status": status, "condition_handle": if *moved { "sole strong handle moved into the registration, application keeps a weak one" } else { "shared clone" }, "history": h.iter().map(|o| format!("{:?}", o)).collect::<Vec<_>>(), "model_fatal_delivery": fatal});
+        let case = json!({"registration_order": if *order { "shutdown first, flag second" } else { "flag first, shutdown second" }, "signal": sig, "status": status, "threads": THREADS_DESC[*threads as usize], "condition_handle": if *moved { "sole strong handle moved into the registration, application keeps a weak one" } else { "shared clone" }, "history": h.iter().map(|o| format!("{:?}", o)).collect::<Vec<_>>(), "model_fatal_delivery": fatal});
         *classes.entry(format!("{}:{}", if *order { "shutdown-first" } else { "flag-first" }, match fatal { Some(_) => "dies", None => "survives" })).or_insert(0) += 1;
         distinct.insert((*order, fatal, p.fate.describe(), h.len()));
         if samples.len() < 4 && i % 211 == 0 {
@@ -310,7 +343,7 @@ pub fn run(tier: Tier) -> BResult {
             }
         }
         if let Some(m) = bad {
-            violations.push(BViolation { message: format!("C15: {} / signal {} / status {} / history {:?}{}: {}", if *order { "shutdown first" } else { "flag first" }, sig, status, h, if *moved { " / condition moved into the registration, armed through a weak handle" } else { "" }, m), case });
+            violations.push(BViolation { message: format!("C15: {} / signal {} / status {} / history {:?}{}: {}", if *order { "shutdown first" } else { "flag first" }, sig, status, h, format!("{}{}", if *moved { " / condition moved into the registration, armed through a weak handle" } else { "" }, ["", " / process with a second live thread", " / delivered on a second thread"][*threads as usize]), m), case });
         }
     }
     BResult {
@@ -323,7 +356,7 @@ pub fn run(tier: Tier) -> BResult {
         violations,
         exhaustive: true,
         caps: vec![],
-        rule: format!("every history of length 1..{} over {{deliver, app stores true, app stores false, app stores another value}} containing a delivery x both registration orders x termination signals (full depth for all, all lengths for the first) x how the condition is shared (a clone; or, with the first signal, the only strong handle moved into the registration while the application arms through a weak one) + exit statuses {:?}.. on canonical histories; reference model = one boolean; plus register_conditional_default: every history of length <= 3 over (deliver, arm, disarm) x termination signals x (undisturbed / another thread installs a handler right before the library re-raises, injected at the interposed raise) - terminated in exactly the first armed delivery; distinct = distinct (order, fatal delivery index, child fate, length)", depth, &statuses[..statuses.len().min(4)]),
+        rule: format!("every history of length 1..{} over {{deliver, app stores true, app stores false, app stores another value}} containing a delivery x both registration orders x termination signals (full depth for all, all lengths for the first) x how the condition is shared (a clone; or, with the first signal, the only strong handle moved into the registration while the application arms through a weak one) + exit statuses {:?}.. on canonical histories; reference model = one boolean; the canonical histories again in processes with a second live thread (deliveries on the main thread / on the other one); plus register_conditional_default: every history of length <= 3 over (deliver, arm, disarm) x termination signals x (undisturbed / another thread installs a handler right before the library re-raises, injected at the interposed raise) - terminated in exactly the first armed delivery; distinct = distinct (order, fatal delivery index, child fate, length)", depth, &statuses[..statuses.len().min(4)]),
         assumptions: vec!["exit-time hooks observed through libc::atexit".into()],
     }
 }
